@@ -1,9 +1,11 @@
 #!/bin/sh
-# run every seeded change against the quick check of the property recorded in its meta.json
-cd /verif
+# run every seeded change against the quick check of the property recorded in its meta.json (see run_seeded.sh for $VERIF_REPO)
+V=$(cd "$(dirname "$0")/.." && pwd)
+R=${VERIF_REPO:-/repo}
+cd "$V"
 for d in seeded/*/; do
   id=$(basename $d); p=$(python3 -c "import json;print(json.load(open('$d/meta.json'))['property'])")
   echo "== $id ($p)"
-  tools/run_seeded.sh /verif/$d $p 2>&1 | grep -v KNOWN | tail -3 | cut -c1-200
+  tools/run_seeded.sh "$V/$d" $p 2>&1 | grep -v KNOWN | tail -3 | cut -c1-200
 done
-git -C /repo status --short | grep -v _build
+git -C "$R" status --short | grep -v _build
